@@ -94,6 +94,7 @@ func rerun(f *Found) (*Violation, bool) {
 	if v == nil {
 		return nil, false
 	}
+	collectFacts(w, v)
 	return v, v.Oracle == f.V.Oracle
 }
 
@@ -327,6 +328,15 @@ func doReplay(path string) int {
 		return 0
 	}
 	fmt.Printf("  result: %s (same oracle: %v)\n", v.Error(), same)
+	// a recorded history that a listed known finding explains is reported as such (known_findings.json may
+	// have been extended since the replay file was written)
+	kf := LoadKnownFindings()
+	spec.KF = kf
+	if id := kf.MatchSpec(spec, v, rf.History); id != "" {
+		kf.Note(id, spec, rf.History, v)
+		kf.Report(rf.Property)
+		return 0
+	}
 	fmt.Printf("VIOLATION property=%s replay=%s\n", rf.Property, path)
 	return 1
 }
